@@ -278,11 +278,18 @@ type wAttr struct {
 	name string
 	val  cty.Value
 	trav hcl.Traversal
+	// pre: what the attribute was set to before its final value (overwrites)
+	pre []wAttr
 }
 type wBlock struct {
 	typ    string
 	labels []string
 	body   *wBody
+	// how the labels reach the block: 0 = a fresh slice; 1 = one scratch slice that the
+	// caller refills for every block and scribbles over afterwards; 2 = the block is created
+	// with other labels, then the slice obtained from Labels() is modified and given to SetLabels
+	labelMode int
+	oldLabels []string
 }
 type wBody struct {
 	attrs  []wAttr // in insertion order; unique names
@@ -302,14 +309,22 @@ func genWBody(t *rapid.T, depth int) *wBody {
 			continue
 		}
 		seen[name] = true
-		if rapid.IntRange(0, 3).Draw(t, "astrav") == 0 {
-			root := rapid.SampledFrom(identPool).Draw(t, "root")
-			tr := append(hcl.Traversal{hcl.TraverseRoot{Name: root}}, genTraversalSteps(t, rapid.IntRange(0, 3).Draw(t, "nsteps"))...)
-			b.attrs = append(b.attrs, wAttr{name: name, trav: tr})
-		} else {
+		drawOne := func() wAttr {
+			if rapid.IntRange(0, 3).Draw(t, "astrav") == 0 {
+				root := rapid.SampledFrom(identPool).Draw(t, "root")
+				tr := append(hcl.Traversal{hcl.TraverseRoot{Name: root}}, genTraversalSteps(t, rapid.IntRange(0, 3).Draw(t, "nsteps"))...)
+				return wAttr{name: name, trav: tr}
+			}
 			v := gen.Value(gen.TypeOpts{Depth: 2}, gen.ValOpts{Nulls: 9, Hostile: true}).Draw(t, "val")
-			b.attrs = append(b.attrs, wAttr{name: name, val: v})
+			return wAttr{name: name, val: v}
 		}
+		a := drawOne()
+		if rapid.IntRange(0, 2).Draw(t, "overwritten") == 0 {
+			for k := rapid.IntRange(1, 3).Draw(t, "noverwrites"); k > 0; k-- {
+				a.pre = append(a.pre, drawOne())
+			}
+		}
+		b.attrs = append(b.attrs, a)
 	}
 	if depth > 0 {
 		nb := rapid.IntRange(0, 2).Draw(t, "nblocks")
@@ -321,6 +336,16 @@ func genWBody(t *rapid.T, depth int) *wBody {
 					blk.labels = append(blk.labels, rapid.SampledFrom(identPool).Draw(t, "label"))
 				} else {
 					blk.labels = append(blk.labels, gen.HostileString().Draw(t, "label"))
+				}
+			}
+			blk.labelMode = rapid.SampledFrom([]int{0, 0, 1, 2}).Draw(t, "labelmode")
+			if blk.labelMode == 2 {
+				for j := 0; j < nl; j++ {
+					if rapid.Bool().Draw(t, "keeplabel") {
+						blk.oldLabels = append(blk.oldLabels, blk.labels[j])
+					} else {
+						blk.oldLabels = append(blk.oldLabels, rapid.SampledFrom(identPool).Draw(t, "oldlabel"))
+					}
 				}
 			}
 			blk.body = genWBody(t, depth-1)
@@ -345,21 +370,68 @@ func (b *wBody) dump(sb *strings.Builder, ind string) {
 	}
 }
 
+// wScratch is the label slice a caller reuses from block to block (labelMode 1).
+var wScratch = make([]string, 0, 8)
+
 func writeWBody(b *wBody, out *hclwrite.Body, viaNewBlock bool) {
-	for _, a := range b.attrs {
+	set := func(a wAttr) {
 		if a.trav != nil {
 			out.SetAttributeTraversal(a.name, a.trav)
 		} else {
 			out.SetAttributeValue(a.name, a.val)
 		}
 	}
+	// the earlier values of overwritten attributes first, round by round, so that the
+	// overwrites interleave with the other attributes
+	for round := 0; round < 3; round++ {
+		for _, a := range b.attrs {
+			if round < len(a.pre) {
+				set(a.pre[round])
+			}
+		}
+	}
+	for _, a := range b.attrs {
+		if len(a.pre) == 0 {
+			set(a)
+		}
+	}
+	for _, a := range b.attrs {
+		if len(a.pre) > 0 {
+			set(a)
+		}
+	}
 	for _, bl := range b.blocks {
+		labels := append([]string(nil), bl.labels...)
+		switch bl.labelMode {
+		case 1:
+			wScratch = append(wScratch[:0], bl.labels...)
+			labels = wScratch
+		case 2:
+			labels = append([]string(nil), bl.oldLabels...)
+		}
 		var nb *hclwrite.Block
 		if viaNewBlock {
-			nb = hclwrite.NewBlock(bl.typ, bl.labels)
+			nb = hclwrite.NewBlock(bl.typ, labels)
 			out.AppendBlock(nb)
 		} else {
-			nb = out.AppendNewBlock(bl.typ, bl.labels)
+			nb = out.AppendNewBlock(bl.typ, labels)
+		}
+		switch bl.labelMode {
+		case 1:
+			for i := range wScratch {
+				wScratch[i] = "scribbled"
+			}
+		case 2:
+			ls := nb.Labels()
+			if len(ls) == len(bl.labels) {
+				copy(ls, bl.labels)
+			} else {
+				ls = append([]string(nil), bl.labels...)
+			}
+			nb.SetLabels(ls)
+			for i := range ls {
+				ls[i] = "scribbled"
+			}
 		}
 		writeWBody(bl.body, nb.Body(), viaNewBlock)
 	}
@@ -414,6 +486,35 @@ func checkWBody(c *hx.Case, b *wBody, got *hclsyntax.Body, path string) {
 }
 
 func checkWBodyAPI(c *hx.Case, b *wBody, got *hclwrite.Body, path string) {
+	if n := len(got.Attributes()); n != len(b.attrs) {
+		c.Failf("api-attr-count", "%s: API reports %d attributes, wrote %d", path, n, len(b.attrs))
+	}
+	for _, a := range b.attrs {
+		ga := got.GetAttribute(a.name)
+		if ga == nil {
+			c.Failf("api-attr-missing", "%s: GetAttribute(%q) is nil", path, a.name)
+		}
+		etxt := ga.Expr().BuildTokens(nil).Bytes()
+		ex, diags := hclsyntax.ParseExpression(etxt, "expr.hcl", hcl.InitialPos)
+		if diags.HasErrors() {
+			c.Failf("api-attr-expr", "%s.%s: Expr() tokens %q do not parse: %s", path, a.name, etxt, diagStr(diags))
+		}
+		if a.trav != nil {
+			tr, diags := hcl.AbsTraversalForExpr(ex)
+			if diags.HasErrors() || !sameTraversal(tr, a.trav) {
+				c.Failf("api-attr-expr", "%s.%s: Expr() is %q, want the traversal %s", path, a.name, etxt, travString(a.trav))
+			}
+			continue
+		}
+		v, diags := ex.Value(nil)
+		if diags.HasErrors() {
+			c.Failf("api-attr-expr", "%s.%s: Expr() %q: %s", path, a.name, etxt, diagStr(diags))
+		}
+		conv, err := convert.Convert(v, a.val.Type())
+		if err != nil || !conv.RawEquals(a.val) {
+			c.Failf("api-attr-expr", "%s.%s: Expr() is %q = %#v, want %#v", path, a.name, etxt, v, a.val)
+		}
+	}
 	blocks := got.Blocks()
 	if len(blocks) != len(b.blocks) {
 		c.Failf("api-block-count", "%s: API reports %d blocks, wrote %d", path, len(blocks), len(b.blocks))
